@@ -553,9 +553,24 @@ class Exchange:
                                       f"sequences but has no exchange partner (no statement "
                                       f"of this branch is its image under swapping the roles "
                                       f"of the two sequences)"))
+        # names whose value is not derivable here: unpacked from a container that
+        # was filled elsewhere (`cxy, cyx = counts` after a loop that appends)
+        opaque = set()
+        for st_ in ast.walk(self.fn):
+            if isinstance(st_, ast.Assign) and len(st_.targets) == 1 and \
+                    isinstance(st_.targets[0], (ast.Tuple, ast.List)) and not (
+                        isinstance(st_.value, (ast.Tuple, ast.List)) and
+                        len(st_.value.elts) == len(st_.targets[0].elts)) and \
+                    isinstance(st_.value, ast.Name):
+                opaque |= {x.id for x in st_.targets[0].elts if isinstance(x, ast.Name)}
         for path, r in self.returns:
             if isinstance(r.value, ast.Tuple) and len(r.value.elts) == 2:
                 a, b = r.value.elts
+                if opaque & {x.id for x in ast.walk(r.value) if isinstance(x, ast.Name)}:
+                    self.undecided = getattr(self, "undecided", []) + [
+                        f"returned pair ({ast.unparse(a)[:40]}, {ast.unparse(b)[:40]}) "
+                        f"is unpacked from a container filled in a loop"]
+                    continue
                 if self.canon(self.S(a)) != self.canon(b):
                     self.findings.append(("return", r.lineno,
                                           f"returned pair ({ast.unparse(a)[:50]}, "
